@@ -35,6 +35,7 @@ EXPLANATION = (
     ' A slot of the request array is written under tests on the request type and its own field only; LinkLayerCreate has one default per field (the executor zips arguments, fields and defaults). C11.Z: no truthiness test on an int-typed value.'
     ' C11.K: a value remembered across calls (keyed table or single slot) is remembered under every argument it depends on.'
     ' C11.R executes _alloc_ent_results_array abstractly for the three request types.'
+    ' C11.S executes serialize_request over 432 combinations of type, count, time limit, rotations and random bases, and both result deserialisers for 0, 1, 2 and 5 pairs, wrong array sizes, both roles. C11.X: the consumption rule of C12 under this id.'
 )
 LEVEL_TEXT = (
     "Static analysis, partial: all 40 index constants, all request parameters, all result attributes, all forwarding call sites and "
